@@ -46,7 +46,7 @@ CLAIMED["C17"] = dict(
 
 CLAIMED["C06"] = dict(
     text="Lean 4 theorems C06_used, C06_missing_partial, C06_unused_partial, C06_bad_partial, C06_deprecated_partial, "
-         "C06_without_extension_partial (+ C06_spdx_name_without_extension, C06_compound, C06_consistency_partial, C06_case_sensitive, "
+         "C06_without_extension_partial (+ C06_defined_partial: a report exists iff no two entries carry one identifier, C06_spdx_name_without_extension, C06_compound, C06_consistency_partial, C06_case_sensitive, "
          "table obligation C06_table): for every licence table, every list of covered files with any number of expressions and every "
          "list of LICENSES/ entries, each field of the model of Project._find_licenses + FileReport/ProjectReport.generate contains "
          "exactly the pairs / identifiers its set-algebra definition in the property text names ('+' tolerance on use, sub-directories, "
